@@ -10,8 +10,8 @@ if [ -z "$SKIPTESTS" ]; then
 echo "--- baseline tests with the change"
 (cd $WT && /venv/bin/python -m pytest -q -p no:cacheprovider tests/test_util.py tests/test_tsc.py -k "not test_multi" 2>&1 | tail -2)
 fi
-echo "--- demo on unmodified /repo (expect 0)"; (cd /tmp && timeout 900 /venv/bin/python $OUT/demo$N.py /repo >/tmp/seed-demo.out 2>&1; echo "exit=$?"; tail -2 /tmp/seed-demo.out)
-echo "--- demo on modified tree (expect !=0)"; (cd /tmp && timeout 900 /venv/bin/python $OUT/demo$N.py $WT >/tmp/seed-demo.out 2>&1; echo "exit=$?"; tail -3 /tmp/seed-demo.out)
+echo "--- demo on unmodified /repo (expect 0)"; (cd /tmp && timeout 900 /venv/bin/python $OUT/demo$N.py /repo >${DEMO_OUT:-/tmp/seed-demo.out} 2>&1; echo "exit=$?"; tail -2 ${DEMO_OUT:-/tmp/seed-demo.out})
+echo "--- demo on modified tree (expect !=0)"; (cd /tmp && timeout 900 /venv/bin/python $OUT/demo$N.py $WT >${DEMO_OUT:-/tmp/seed-demo.out} 2>&1; echo "exit=$?"; tail -3 ${DEMO_OUT:-/tmp/seed-demo.out})
 for P in $CHECKS; do
   echo "--- check $P ($TIER) against the modified tree"
   (cd /verif && VERIF_REPO=$WT ./check $P --tier $TIER 2>&1 | cut -c1-420 | head -9; )
